@@ -531,6 +531,7 @@ func (w *world) canon() string {
 		return "?" + v.Kind().String()
 	}
 	var sb strings.Builder
+	sb.Grow(768)
 	sb.WriteString(dump(reflect.ValueOf(w.pool)))
 	sb.WriteString(" | fins:")
 	var fs []string
